@@ -10,6 +10,7 @@ from stix2.base import _STIXBase
 from stix2.datastore import DataSink, DataSource, DataStoreMixin
 from stix2.datastore.filters import FilterSet, apply_common_filters
 from stix2.parsing import parse
+from stix2.utils import _timestamp_key
 
 
 def _add(store, stix_data, allow_custom=True, version=None):
@@ -74,10 +75,11 @@ class _ObjectFamily(object):
         self.latest_version = None
 
     def add(self, obj):
-        self.all_versions[obj["modified"]] = obj
+        modified = _timestamp_key(obj["modified"])
+        self.all_versions[modified] = obj
         if (
             self.latest_version is None or
-            obj["modified"] > self.latest_version["modified"]
+            modified > _timestamp_key(self.latest_version["modified"])
         ):
             self.latest_version = obj
 
